@@ -515,6 +515,12 @@ class CallMixin:
             val = None
             if getattr(r, "value", None):
                 val = r.value(x)
+            if r.exc == "Callback":
+                from .values import CALLBACK_EXCS
+
+                for cn in CALLBACK_EXCS:
+                    R.append((q.fork(), ExcV(cn, value=SV("val", L.fresh("excval", L.Val)), site=f"L{line}/call {short}")))
+                continue
             R.append((q, ExcV(r.exc, value=val, site=f"L{line}/call {short}")))
         # normal outcome
         q = p
